@@ -212,6 +212,15 @@ Theorem C04_alloc_leva : forall hs hl body, bounded (alloc_leva_prologue hs hl b
 Proof. exact alloc_leva_bounded. Qed.
 Print Assumptions C04_alloc_leva.
 
+Theorem C04_alloc_uuid : forall hs hl body, bounded (alloc_uuid hs hl body) 0 4144 1 255 hs.
+Proof. exact alloc_uuid_bounded. Qed.
+Print Assumptions C04_alloc_uuid.
+
+Theorem C04_alloc_ftyp_styp : forall p hs hl body,
+  bounded (alloc_ftyp hs hl body) 0 0 1 0 hs /\ bounded (alloc_styp p hs hl body) 0 0 1 0 hs.
+Proof. exact alloc_ftyp_styp_bounded. Qed.
+Print Assumptions C04_alloc_ftyp_styp.
+
 (* ctts: make([]uint32, entryCount+1) wraps in uint32 for entryCount = 2^32-1, which needs a box of exactly
    34359738376 bytes (32 GiB): bounded for every other size, an index panic at that size (not reproducible through
    DecodeBox on this machine: the second make asks for 16 GiB first) *)
